@@ -64,3 +64,40 @@ def with_callback_failures(scns, seed, per=1):
             cfg = dict(s.cfg); cfg["wf"] = 0; cfg["cls"] = "cbfail"
             out.append(Scn(s.name + ".cb%d" % k, s.arr, cfg, s.beh + [(hook, nth, act)], s.exp, s.close))
     return out
+
+
+def gaps(seed, quick):
+    """Stream gaps (data = NULL, len > 0) at every position of small exchanges: inside an identity body (delivered to the body callbacks as NULL data
+    with the length of the gap), inside a compressed / urlencoded / multipart body (the body processor takes NULL data for the end), behind the
+    last byte of a message (FINALIZE: completion without probing), and everywhere else (refused: the call returns CLOSED, stream state untouched).
+    Fed in raw mode (return codes ignored, no hand-over needed: every request precedes its response)."""
+    import zlib
+    rnd = random.Random(seed + 29)
+    H = b"Host: h\r\n"
+    gz = zlib.compressobj(6, zlib.DEFLATED, 31)
+    zbody = gz.compress(b"compressed body " * 8) + gz.flush()
+    get = b"GET /g HTTP/1.1\r\n" + H + b"\r\n"
+    E = {
+        "qcl": (b"POST /p HTTP/1.1\r\n" + H + b"Content-Length: 10\r\n\r\n0123456789" + get, b"HTTP/1.1 200 OK\r\nContent-Length: 1\r\n\r\nxHTTP/1.1 200 OK\r\nContent-Length: 0\r\n\r\n"),
+        "scl": (get + get, b"HTTP/1.1 200 OK\r\nContent-Length: 10\r\n\r\n0123456789HTTP/1.1 204 No Content\r\n\r\n"),
+        "sclose": (get, b"HTTP/1.0 200 OK\r\n\r\nbody until the close"),
+        "sgzip": (get, b"HTTP/1.1 200 OK\r\nContent-Encoding: gzip\r\nContent-Length: %d\r\n\r\n" % len(zbody) + zbody),
+        "qurl": (b"POST /u HTTP/1.1\r\n" + H + b"Content-Type: application/x-www-form-urlencoded\r\nContent-Length: 11\r\n\r\na=1&bb=22&c", b"HTTP/1.1 200 OK\r\nContent-Length: 0\r\n\r\n"),
+        "qchunk": (b"POST /c HTTP/1.1\r\n" + H + b"Transfer-Encoding: chunked\r\n\r\n5\r\nabcde\r\n0\r\n\r\n", b"HTTP/1.1 200 OK\r\nTransfer-Encoding: chunked\r\n\r\n3\r\nxyz\r\n0\r\n\r\n"),
+        "q09": (b"GET /old\r\nignored after 0.9", b"old body"),
+    }
+    out = []
+    for name, (q, s) in E.items():
+        for side, stream in (("q", q), ("s", s)):
+            n = len(stream)
+            step = 1 if not quick else (1 if n < 60 else 2)
+            for p in range(0, n + 1, step):
+                for g in ((1, 4) if quick else (1, 2, 4, 9, 40)):
+                    if p + g > n and g != 1:
+                        continue
+                    a, b = stream[:p], stream[min(n, p + g):]
+                    mine = ([(">" if side == "q" else "<", a)] if a else []) + [("g>" if side == "q" else "g<", g)] + ([(">" if side == "q" else "<", b)] if b else [])
+                    arr = ([(">", q)] + mine) if side == "s" else (mine + [("<", s)])
+                    for autod in ((0,) if quick else (0, 1)):
+                        out.append(Scn("gap/%s.%s.p%d.g%d.a%d" % (name, side, p, g, autod), arr, {"mode": "raw", "wf": 0, "cls": "gap", "autod": autod, "dump": 0}, (), (), rnd.random() < .8))
+    return out
